@@ -245,6 +245,15 @@ Example C10_example_two_fronts :
      BMap [(1, VNum 101); (2, VStr 10); (4, VNum 7)]].
 Proof. vm_compute. reflexivity. Qed.
 
+(* a close callback that panics changes nothing: the removed connection is gone - a query of it
+   reports an error, a push to it has no effect, the other connection is untouched *)
+Example C10_example_panicking_hook :
+  model_run [OConnect 1; OConnect 2; OFrontSet 1 4 (VInt 3); OBackNew 1 1; OBackNew 2 2; OFrontHook 1; ORemove 1;
+             OBackQuery 1; OBackSet 1 5 (VInt 1); OBackPush 1; OBackQuery 1; OBackQuery 2; OFrontDump 1; OFrontDump 2; OFrontHook 1]
+  = [BUnit; BUnit; BUnit; BUnit; BUnit; BUnit; BClosed [(1, VNum 1); (2, VStr 0); (4, VNum 3)];
+     BErr; BUnit; BOk; BErr; BOk; BIgnored; BMap [(1, VNum 2); (2, VStr 0)]; BIgnored].
+Proof. vm_compute. reflexivity. Qed.
+
 Example C10_example_hyps :
   let h := [OConnect 1; OBackNew 1 1; OBackSet 1 4 (VInt 5)] in
   bsid cval h 1 = Some 1 /\ bdirty cval h 1 = true /\
